@@ -694,6 +694,15 @@ func (hm *hintMgr) loadHintsByChunk(chunkID int) (datasize uint32) {
 	if len(ck.splits) < 2 {
 		return 0
 	}
+	// lookups walk the chunks from maxChunkID downwards: it has to cover the
+	// chunks whose hints were loaded from files, not only those written to
+	if chunkID > hm.maxChunkID {
+		hm.Lock()
+		if chunkID > hm.maxChunkID {
+			hm.maxChunkID = chunkID
+		}
+		hm.Unlock()
+	}
 	return
 }
 
